@@ -683,4 +683,14 @@ def termBracket (unit : Nat) (m : Nat) (t : VTerm) : Int × Int :=
   let (lo, hi) := sqrtBracket m t.rad
   (((lo + t.hsum) / 1000 * (unit : Rat)).floor, ((hi + t.hsum) / 1000 * (unit : Rat)).ceil)
 
+/- ================================================================ cluster-like zones: the gateway part of
+   TorusZone / FatTreeZone / DragonflyZone::get_local_route
+     if (dst->is_router() || src->is_router()) return;          (Torus, FatTree: nothing is set)
+     …
+     route->gw_src_ = get_gateway(src->id());  route->gw_dst_ = get_gateway(dst->id());
+   `tab` = ClusterBase::gateways_, filled by fill_leaf_from_cb: `netzone->get_gateway()` (the leaf's default gateway)
+   for a netzone leaf, nullptr for a host leaf.  (No loopback callback in the generated platforms.) -/
+def clusterGw (isRouter : Np → Bool) (tab : Np → Option Np) (src dst : Np) : Option Np × Option Np :=
+  if isRouter dst || isRouter src then (none, none) else (tab src, tab dst)
+
 end SgVerif.C24
